@@ -25,6 +25,7 @@ def run(ctx, rep):
     rep.rule("R18.5", "added/removed notifications are tied to actual membership changes; callback failures are contained")
     rep.rule("R18.7", "replies and stored values are always encodable: the codec is total and closed on what it decodes (= R04.1-R04.6)")
     rep.rule("R18.6", "a query returns the non-stale entries in ascending refresh order and prunes the stale ones")
+    rep.rule("R18.8", "each registry has its own table (no class-level or default-argument table shared between registry instances)")
     rep.assume("clock behaviour, UDP loss and ties between equal timestamps are not decided",
                "logger calls take their arguments lazily and do not fail")
 
@@ -751,3 +752,6 @@ def run(ctx, rep):
            "cmd_query returns a non-tuple", fq.loc, kind="site")
 
     K.share(ctx, rep, "c04", lambda o: o.rule in ("R04.1", "R04.2", "R04.3", "R04.4", "R04.5", "R04.6"), "R18.7", floor=20)
+    from . import hygiene as H
+    for cq_ in (RS, TCP, UDP):
+        H.private_state(ctx, rep, "R18.8", cq_)
